@@ -66,6 +66,23 @@ def main(tier):
             return "info = %d, but the first exactly-zero column of A*Pc is at position %d (zero columns of A: %s)" % (res["info"], exp, zc)
         return None
     pipecheck.run_traces(ck, jobs, out, judge=judge, precs=("d",) if quick else ("d", "s", "z", "c"))
+    # (2b) structurally singular patterns (a column without any pivot candidate): recorded finding F3
+    ss = []
+    for k, pat in enumerate(["1000100000110011", "1000010000100000", "1100000000110011", "1010010000010100"]):
+        ss.append({"id": "ss%d" % k, "gen": "pattern", "n": 4, "pat": pat, "P": 1, "ps": 2, "relax": 1, "maxsuper": 2,
+                   "seed": 5, "out": os.path.join(out, "ss%d.ndjson" % k)})
+    build.ensure("asan")
+    st = pipe.run_jobs(ss, out, variant="asan")
+    for j in ss:
+        s_ = st.get(j["id"], "missing")
+        ck.case("structsing:" + j["pat"])
+        bad = s_ != "ok"
+        if not bad and os.path.exists(j["out"]):
+            import json as _json
+            res = _json.loads(open(j["out"]).readlines()[-1])
+            bad = not (0 < res.get("info", 0) <= 4) or sorted(res.get("permr", [])) != [1, 2, 3, 4]
+        if bad:
+            ck.violation("structsing:" + j["pat"], "structurally singular 4x4 pattern %s: outcome %s (crash, info = 0, or perm_r not a permutation)" % (j["pat"], s_), {"job": j})
     # (3) both drivers
     apicheck.run_histories(ck, ["mat", "vals", "gssv", "gssvx", "destroy", "singular", "equil", "trans"], 3, 40 if quick else 400, rng,
                            precs=("d", "s", "z", "c"), threads=(1, 2, 4), nmax=20,
